@@ -575,10 +575,15 @@ static void roundtrip(char mode, int fmt) {
   size_t len1 = 0, len2 = 0; char *x1 = NULL, *x2 = NULL;
   if (original_fails_check(topo)) { emit("EQ ok", "CMP original-fails-check"); flush2(); return; }
   if (duplicate_initiators(topo) && !getenv("VERIF_XMLRT_JUDGE_DUP_INITIATORS")) { emit(".", "KNOWN duplicate-memattr-initiators"); flush2(); return; }
+  /* first export BEFORE the harness reads anything through lazily refreshed caches (distances after a restrict, ...): the
+   * document must not depend on which getters ran before the export (same entry point, same flags, compared with x1 below) */
+  size_t len0 = 0; char *x0 = do_export(topo, mode, xflags, xmlpath2, &len0);
   dump_both(topo, "o"); extras(topo, "o");
   ev_open(); ev_tag = "o"; ev_lastseq = -1; nxobjs = 0; xcollect(hwloc_get_root_obj(topo));
   x1 = do_export(topo, mode, xflags, xmlpath1, &len1);
   ev_flush_to_ops(); evf = NULL;
+  emit("EXP0 ok", "EXP0 %d", (!x0 && !x1) || (x0 && x1 && len0 == len1 && !memcmp(x0, x1, len0)));
+  free(x0);
   flush2();
   if (!x1) { emit("EQ ok", "CMP exportfail"); goto out; }
   if (hwloc_topology_init(&t2) < 0) { emit("EQ ok", "CMP reloadfail"); t2 = NULL; goto out; }
